@@ -100,7 +100,8 @@ func gen(t *rapid.T) Case {
 			}
 		case k < 7:
 			op.Kind = "remove"
-			op.Methods = rapid.SliceOfN(rapid.SampledFrom([]string{"GET", "GET", "HEAD", "OPTIONS", "POST", "PUT", "DELETE", "", "BOGUS"}), 1, 3).Draw(t, "rm")
+			op.Methods = rapid.SliceOfN(rapid.SampledFrom([]string{"GET", "GET", "HEAD", "OPTIONS", "POST", "PUT", "DELETE", "", "BOGUS",
+				"options", "head", "Options", "Head", "option\u017f", "OPT\u0131ONS", "get", " HEAD", "OPTIONS "}), 1, 3).Draw(t, "rm") // incl. spellings that are no method names at all
 		case k < 8:
 			op.Kind = "removeAll"
 		default:
